@@ -3,14 +3,17 @@ a rejected schema leaves no generated files.
 
 Proved (Lean, `Sbepp.Properties.C09`): every unchecked-access site extracted
 from the sbeppc sources is classified in the model's guard table; the pipeline
-model never returns `crash` outside the listed unguarded sites; include
-resolution terminates for acyclic include graphs (fuel bound) and an include
-cycle is a witness against the unbounded recursion; a `diag` outcome of the
-model implies that no file was written unless the diagnostic is an I/O failure
-of the emission itself.
+model never returns `crash` outside the unguarded sites and not at all when the
+nesting depth stays below the stack limit; include resolution terminates for
+EVERY file system (the include stack bounds the nesting of parsers by the
+number of files) and a cycle is a diagnostic; a `diag` outcome of the model
+implies that no file was written unless the diagnostic is `write_file`'s own
+failure.  Still refuted (open findings): deep nesting, files left behind after
+an output file could not be opened.
 
 Observed (this file): a hardened sbeppc (ASan+UBSan, libstdc++ assertions,
-`assert` on) on a structure-aware garbling stream and argv combinations.
+`assert` on) on a structure-aware garbling stream and argv combinations, and on
+the concrete cases of the Lean witnesses / of the former defects.
 """
 import base64
 import concurrent.futures
@@ -32,27 +35,28 @@ THEOREMS = [
     'Sbepp.Properties.C09.guard_table_nodup',
     'Sbepp.Properties.C09.every_site_classified',
     'Sbepp.Properties.C09.trigger_sites_unguarded',
+    'Sbepp.Properties.C09.fixed_sites_guarded',
     'Sbepp.Properties.C09.run_no_crash_false',
     'Sbepp.Properties.C09.crash_only_at_unguarded',
     'Sbepp.Properties.C09.run_no_crash_partial',
     'Sbepp.Properties.C09.run_terminates',
     'Sbepp.Properties.C09.run_fuel_stable',
-    'Sbepp.Properties.C09.include_cycle_exhausts_any_fuel',
     'Sbepp.Properties.C09.rejected_leaves_no_files_false',
     'Sbepp.Properties.C09.rejected_leaves_no_files_partial',
     'Sbepp.Properties.C09.rejected_leaves_no_files_if_open_succeeds',
     'Sbepp.Properties.C09.ok_writes_all_files',
-    'Sbepp.Properties.C09.fmtSafe_of_no_brace',
-    # the concrete witnesses of the refutations (replayed on the real sbeppc below)
-    'Sbepp.Properties.C09.witness_brace_arg',
-    'Sbepp.Properties.C09.witness_brace_path',
-    'Sbepp.Properties.C09.witness_directory',
-    'Sbepp.Properties.C09.witness_const_char',
-    'Sbepp.Properties.C09.witness_const_char_value_ref',
-    'Sbepp.Properties.C09.witness_include_cycle',
+    # the concrete witnesses of the two remaining refutations (replayed on the real sbeppc below)
     'Sbepp.Properties.C09.witness_depth',
-    'Sbepp.Properties.C09.witness_offset',
     'Sbepp.Properties.C09.witness_files_after_reject',
+    # the former witnesses: the model (like the fixed code) answers with a diagnostic / accepts
+    'Sbepp.Properties.C09.brace_arg_is_diagnosed',
+    'Sbepp.Properties.C09.brace_path_is_diagnosed',
+    'Sbepp.Properties.C09.diagnostic_text_is_data',
+    'Sbepp.Properties.C09.directory_is_diagnosed',
+    'Sbepp.Properties.C09.included_directory_is_diagnosed',
+    'Sbepp.Properties.C09.const_char_is_parsed',
+    'Sbepp.Properties.C09.include_cycle_is_diagnosed',
+    'Sbepp.Properties.C09.include_of_main_is_diagnosed',
 ]
 
 TIMEOUT = 25
@@ -338,36 +342,55 @@ def _deep(n):
 
 ENUM = '<enum name="E" encodingType="char"><validValue name="A">A</validValue></enum>'
 
-# each witness: (Lean theorem in Sbepp.Properties.C09 / trigger of Sbepp.Gen.Pipeline, case, what, regex on the observed site)
+def _incl(href):
+    return b'<xi:include %s href="%s"/>' % (XI.encode(), href.encode())
+
+
+# each entry: (Lean theorem in Sbepp.Properties.C09, case, expected outcome of model AND real code, regex)
+#   expected 'abort' / 'files-after-reject': a still-open finding (regex on the observed site)
+#   expected 'diag' / 'ok': a former defect, fixed in /repo (regex on the diagnostic line); a crash here is
+#   reported like any other failure, so reverting a fix makes the check fail on its own case
 WITNESSES = [
-    ('witness_brace_arg/diagHasBrace', {'files': {'schema.xml': _schema()}, 'argv': ['-{}'], 'mutation': 'witness'},
-     'abort', r'uncaught:fmt::format_error'),
-    ('witness_brace_path/diagHasBrace', {'files': {}, 'argv': ['--output-dir', '{OUT}', 'no{such}.xml'],
-                                         'mutation': 'witness'}, 'abort', r'uncaught:fmt::format_error'),
-    ('diagHasBrace (schema text)', {'files': {'schema.xml': _schema('<type name="{" primitiveType="uint8"/>')},
-                                    'argv': garble.DEFAULT_ARGV, 'mutation': 'witness'},
-     'abort', r'uncaught:fmt::format_error'),
-    ('witness_directory/inputIsDirectory', {'files': {}, 'dirs': ['adir'], 'argv': ['--output-dir', '{OUT}', 'adir'],
-                                            'mutation': 'witness'}, 'abort', r'uncaught:std::length_error|asan:.*(alloc|size)'),
-    ('witness_const_char/constCharNoValue',
-     {'files': {'schema.xml': _schema('<type name="K" primitiveType="char" presence="constant"/>')},
-      'argv': garble.DEFAULT_ARGV, 'mutation': 'witness'}, 'abort', r'glibcxx-assert:optional:.*_M_is_engaged'),
-    ('witness_const_char_value_ref/constCharNoValue',
-     {'files': {'schema.xml': _schema(ENUM + '<type name="K" primitiveType="char" presence="constant" valueRef="E.A"/>')},
-      'argv': garble.DEFAULT_ARGV, 'mutation': 'witness'}, 'abort', r'glibcxx-assert:optional:.*_M_is_engaged'),
-    ('witness_include_cycle/includeCycle',
-     {'files': {'schema.xml': _schema().replace(b'<types>', b'<xi:include %s href="self.xml"/><types>' % XI.encode()),
-                'self.xml': b'<xi:include %s href="self.xml"/>' % XI.encode()},
-      'argv': garble.DEFAULT_ARGV, 'mutation': 'witness'}, 'abort', r'asan:stack-overflow|signal-11|timeout'),
-    ('witness_depth/nestingTooDeep', {'files': {'schema.xml': _schema(_deep(20000))}, 'argv': garble.DEFAULT_ARGV,
-                                      'mutation': 'witness'}, 'abort', r'asan:stack-overflow|signal-11'),
-    ('witness_offset/offsetBeyondContent', {'files': {'schema.xml': b'            <type name'},
-                                            'argv': garble.DEFAULT_ARGV, 'mutation': 'witness'},
-     'abort', r'assert:location_manager.hpp'),
-    ('witness_files_after_reject/openFails',
+    ('witness_depth', {'files': {'schema.xml': _schema(_deep(20000))}, 'argv': garble.DEFAULT_ARGV,
+                       'mutation': 'witness'}, 'abort', r'asan:stack-overflow|signal-11'),
+    ('witness_files_after_reject',
      {'files': {'schema.xml': _schema(msgs='<message name="M" id="1"/>')},
       'argv': ['--schema-name', 'x' * 255] + garble.DEFAULT_ARGV, 'mutation': 'witness'},
      'files-after-reject', r"can't open file"),
+    ('brace_arg_is_diagnosed', {'files': {'schema.xml': _schema()}, 'argv': ['-{}'], 'mutation': 'fixed'},
+     'diag', r'unknown argument: `-\{\}`'),
+    ('brace_path_is_diagnosed', {'files': {}, 'argv': ['--output-dir', '{OUT}', 'no{such}.xml'], 'mutation': 'fixed'},
+     'diag', r"can't open file: `no\{such\}\.xml`"),
+    ('diagnostic_text_is_data', {'files': {'schema.xml': _schema('<type name="{" primitiveType="uint8"/>')},
+                                 'argv': garble.DEFAULT_ARGV, 'mutation': 'fixed'}, 'diag', r'`\{` is not a valid SBE name'),
+    ('directory_is_diagnosed', {'files': {}, 'dirs': ['adir'], 'argv': ['--output-dir', '{OUT}', 'adir'],
+                                'mutation': 'fixed'}, 'diag', r'`adir` is a directory'),
+    ('included_directory_is_diagnosed',
+     {'files': {'schema.xml': _schema().replace(b'<types>', _incl('adir') + b'<types>')}, 'dirs': ['adir'],
+      'argv': garble.DEFAULT_ARGV, 'mutation': 'fixed'}, 'diag', r'`adir` is a directory'),
+    ('const_char_is_parsed',
+     {'files': {'schema.xml': _schema('<type name="K" primitiveType="char" presence="constant"/>')},
+      'argv': garble.DEFAULT_ARGV, 'mutation': 'fixed'}, 'diag', r'either `valueRef` or value must be provided'),
+    ('const_char_is_parsed (valueRef: a valid schema)',
+     {'files': {'schema.xml': _schema(ENUM + '<type name="K" primitiveType="char" presence="constant" valueRef="E.A"/>')},
+      'argv': garble.DEFAULT_ARGV, 'mutation': 'fixed'}, 'ok', r''),
+    ('include_cycle_is_diagnosed',
+     {'files': {'schema.xml': _schema().replace(b'<types>', _incl('self.xml') + b'<types>'), 'self.xml': _incl('self.xml')},
+      'argv': garble.DEFAULT_ARGV, 'mutation': 'fixed'}, 'diag', r'self\.xml:\d+:\d+: cyclic include of `self\.xml`'),
+    ('include_cycle_is_diagnosed (3-cycle)',
+     {'files': {'schema.xml': _schema().replace(b'<types>', _incl('a.xml') + b'<types>'), 'a.xml': _incl('b.xml'),
+                'b.xml': _incl('c.xml'), 'c.xml': _incl('a.xml')},
+      'argv': garble.DEFAULT_ARGV, 'mutation': 'fixed'}, 'diag', r'c\.xml:\d+:\d+: cyclic include of `a\.xml`'),
+    ('include_of_main_is_diagnosed',
+     {'files': {'schema.xml': _schema().replace(b'<types>', _incl('schema.xml') + b'<types>')},
+      'argv': garble.DEFAULT_ARGV, 'mutation': 'fixed'}, 'diag', r'cyclic include of `schema\.xml`'),
+    ('location_manager::find is total (no model counterpart: offsets are not modelled any more)',
+     {'files': {'schema.xml': b'            <type name'}, 'argv': garble.DEFAULT_ARGV, 'mutation': 'fixed'},
+     'diag', r'XML parsing error'),
+    ('location_manager::find is total (transcoded buffer)',
+     {'files': {'schema.xml': '<?xml version="1.0" encoding="latin1"?>'.encode() + ('<!-- %s -->' % ('\xe9' * 3000)).encode('latin-1')
+                + _schema().split(b'?>', 1)[1].replace(b'</messageSchema>', b'<message name="9bad" id="1"/></messageSchema>')},
+      'argv': garble.DEFAULT_ARGV, 'mutation': 'fixed'}, 'diag', r'is not a valid SBE name'),
 ]
 
 
@@ -543,28 +566,33 @@ def report(chk, exe, case, cl, out, scratch, count=1, mutations=None):
 
 
 def witnesses(chk, exe, scratch):
-    """Every site the Lean model marks `unguarded` has a concrete witness; run
-    it on the real code.  A witness that crashes is a violation (reported like
-    any other); one that does not crash any more means the model is stale."""
+    """The concrete cases behind the Lean statements, run on the real code: the
+    witnesses of the remaining refutations must still fail (otherwise the model
+    is stale), the former defects must give what model and specification say."""
     res = {}
-    for i, (site, case, what, rx) in enumerate(WITNESSES):
+    for i, (name, case, what, rx) in enumerate(WITNESSES):
         d = os.path.join(scratch, 'wit%d' % i)
         try:
             rc, out, new = run_case(exe, case, d)
         finally:
             shutil.rmtree(d, ignore_errors=True)
         cl = classify(rc, out, new)
-        res[site] = {'what': cl['what'], 'site': cl.get('site')}
-        if cl['what'] == what and re.search(rx, cl.get('site', '')):
-            report(chk, exe, case, cl, out[-3000:], scratch, mutations={'witness': 1})
-        elif cl['what'] in ('ok', 'diag'):
-            chk.report_unproved('impl≠model (implementation agrees with the specification)',
-                                {'lean_witness': site, 'model': what, 'impl': cl,
-                                 'hint': 'Sbepp.Properties.C09 refutes the full-strength statement with this witness, '
-                                         'but the real sbeppc no longer fails on it: the code was fixed -- update '
-                                         'Sbepp.Gen.Pipeline (guard table, trigger) and drop the refutation'})
+        res[name] = {'expected': what, 'observed': cl['what'], 'site': cl.get('site') or cl.get('class')}
+        m = re.search(r'Error(?:\x1b\[0m)?: (.*)', out)
+        line = m.group(1) if m else ''
+        if cl['what'] not in ('ok', 'diag'):
+            # a failure by the specification: reported (known finding or violation)
+            report(chk, exe, case, cl, out[-3000:], scratch, mutations={case['mutation']: 1})
+            if what in ('ok', 'diag') or cl['what'] != what or not re.search(rx, cl.get('site', '')):
+                res[name]['note'] = 'model expects %s' % what
+        elif what in ('ok', 'diag') and cl['what'] == what and re.search(rx, line if what == 'diag' else ''):
+            pass
         else:
-            report(chk, exe, case, cl, out[-3000:], scratch, mutations={'witness': 1})
+            chk.report_unproved('impl≠model (implementation agrees with the specification)',
+                                {'lean_witness': name, 'model': what, 'model_pattern': rx, 'impl': cl,
+                                 'impl_diagnostic': line[:200],
+                                 'hint': 'Sbepp.Gen.Pipeline / Sbepp.Properties.C09 describe a different behaviour for '
+                                         'this input than the real sbeppc shows'})
     chk.cov['witness_replays'] = res
 
 
@@ -634,9 +662,10 @@ def replay(chk, rep):
                 finally:
                     shutil.rmtree(scratch, ignore_errors=True)
                 cl = classify(rc, out, new)
-                print('model : %s (Lean witness %s)' % (what, site))
+                print('model : %s /%s/ (Lean: %s)' % (what, rx, site))
                 print('impl  : rc=%s class=%s' % (rc, json.dumps(cl)))
-                return 0 if (cl['what'] == what and re.search(rx, cl.get('site', ''))) else 1
+                print('output tail:\n' + out[-600:])
+                return 0 if cl['what'] == what else 1
         return 1
     case = decode_case(rep['input'])
     shutil.rmtree(scratch, ignore_errors=True)
